@@ -27,7 +27,10 @@ class Exact(Suite):
         prs = gen.all_partial_rankings([0, 1, 2])
         for _ in range(40 if tier == "quick" else 500):
             cases.append({"s": opt_scheme(rng), "D": [rng.choice(prs) or [[0]], rng.choice(prs), rng.choice(prs)]})
-        for _ in range(130 if tier == "quick" else 1500):
+        for _ in range(50 if tier == "quick" else 700):
+            cases.append({"s": rng.choice([gen.UNIFYING, gen.UNIFYING, gen.EXTENDED, gen.UNIFYING_HALF, gen.GENERIC]),
+                          "D": sparse_component_dataset(rng, 5 if tier == "quick" else 7)})
+        for _ in range(100 if tier == "quick" else 1500):
             nmax = rng.choice([4, 5, 6, 6]) if tier == "quick" else rng.choice([5, 6, 7, 7])
             cases.append({"s": opt_scheme(rng), "D": layered_dataset(rng, nmax, 5) if rng.random() < 0.5 else gen.random_dataset(rng, nmax, 5)})
         return cases
